@@ -35,6 +35,11 @@ func Load(data []byte, t interface{}) (format uint8, err error) {
 func LoadAsFormat(data []byte, format uint8, t interface{}) (err error) {
 	switch format {
 	case RAW:
+		// Raw data can only be handed out as is.
+		if raw, ok := t.(*[]byte); ok {
+			*raw = data
+			return nil
+		}
 		return ErrIsRaw
 	case JSON:
 		err = json.Unmarshal(data, t)
@@ -80,7 +85,8 @@ func loadFormat(data []byte) (format uint8, read int, err error) {
 	if err != nil {
 		return 0, 0, err
 	}
-	if len(data) <= read {
+	// Only raw data may be empty.
+	if len(data) <= read && format != RAW {
 		return 0, 0, io.ErrUnexpectedEOF
 	}
 
